@@ -11,7 +11,7 @@ fn ilist(rng: &mut Rng, n: usize) -> String {
 
 /// One block of forms; `u` is a unique suffix for global names.
 pub fn block(rng: &mut Rng, u: usize, tags: &mut Vec<String>) -> Vec<String> {
-    let t = rng.below(24);
+    let t = rng.below(25);
     tags.push(format!("cont-t{}", t));
     let a = rng.range(1, 9);
     let b = rng.range(2, 5);
@@ -394,6 +394,29 @@ pub fn block(rng: &mut Rng, u: usize, tags: &mut Vec<String>) -> Vec<String> {
                 format!("(g{u})", u = u),
                 format!("(list n{u} trail{u})", u = u),
             ]
+        }
+        23 => {
+            // the code a continuation resumes in is referenced by nothing but the continuation: code compiled by eval,
+            // or a global procedure redefined after the capture; allocation, then re-entry
+            let by_eval = rng.below(2) == 0;
+            let mut f = vec![
+                format!("(define k{u} #f)", u = u),
+                format!("(define n{u} 0)", u = u),
+                format!("(define (junk{u} n) (if (= n 0) '() (cons (vector n n) (junk{u} (- n 1)))))", u = u),
+            ];
+            if by_eval {
+                f.push(format!("(eval '(+ {a} (call/cc (lambda (c) (set! k{u} c) 1)) (* 2 {b})))", u = u, a = a, b = b));
+            } else {
+                f.push(format!("(define (cap{u}) (list 'in (+ {a} (call/cc (lambda (c) (set! k{u} c) 1))) 'cap))", u = u, a = a));
+                f.push(format!("(cap{u})", u = u));
+                f.push(format!("(define (cap{u}) 'redefined)", u = u));
+            }
+            f.push(format!("(length (junk{u} 60))", u = u));
+            for _ in 0..=r.min(1) {
+                f.push(format!("(if (< n{u} 2) (begin (set! n{u} (+ n{u} 1)) (k{u} (* n{u} 10))) 'done)", u = u));
+                f.push(format!("(length (junk{u} 40))", u = u));
+            }
+            f
         }
         _ => {
             // invoked from inside a for-each callback of a later form: abandons that loop
